@@ -627,6 +627,9 @@ func (r *rewriter) rewriteSelect(n *ast.SelectStmt, c *astutil.Cursor) ast.Stmt 
 	hd := "false"
 	if hasDefault {
 		hd = "true"
+	} else {
+		// keep the statement "terminating" when every arm returns (a switch needs a default for that)
+		clauses = append(clauses, &ast.CaseClause{Body: []ast.Stmt{&ast.ExprStmt{X: &ast.CallExpr{Fun: ast.NewIdent("panic"), Args: []ast.Expr{&ast.BasicLit{Kind: token.STRING, Value: strconv.Quote("zzcore: select returned an impossible index")}}}}}})
 	}
 	args := append([]ast.Expr{ast.NewIdent(hd)}, cases...)
 	lhs := []ast.Expr{iv, ast.NewIdent("_"), ast.NewIdent("_")}
